@@ -71,6 +71,7 @@ PNODE = Family(
         'get_code': _pm('get_code', [('include_prefix', BOOL)], STR, defaults={'include_prefix': True}),
         'get_start_pos_of_prefix': _pm('get_start_pos_of_prefix', [], POS),
         'get_used_names': _pm('get_used_names', [], Obj('UsedNames')),
+        'get_doc_node': _pm('get_doc_node', [], Opt(_P), ensures=['result is None or result.is_leaf']),
         'get_leaf_for_position': _pm('get_leaf_for_position', [('position', POS), ('include_prefixes', BOOL)],
                                      Opt(_P), defaults={'include_prefixes': False}),
     },
